@@ -46,6 +46,15 @@ PROPS = {
     "C09": P(["C09"], ["C09."],
              "all sequences over a 3-letter alphabet of length 5 (thorough: 7) through Slopes, Peaks (values) and Peaks (slopes) with the value-path/slope-path comparison; random shapes with NaN. Non-trivial: >= 3 ops.",
              nontrivial=["multi"]),
+    "C01": P(["C01"], ["C01."],
+             "all 65 binary nestings of k<=6 probe stages (Pipe::new and `|`, random UnitPipe wrappers) over real stateful filters (integrate, differentiate, delay, median, max, min, mean, ema, convolve) fed random samples, with the per-stage invocation log compared; the same with a source as first stage (FromIter / Take<Increment>, pulled past the end) and with a sink as last stage (finalised mid-stream and at the end). Non-trivial: >= 3 ops and at least two stages.",
+             nontrivial=["pipe.k2", "pipe.k3", "pipe.k4", "pipe.k5", "pipe.k6"]),
+    "C10": P(["C10"], ["C10.", "C20.source-cache"],
+             "enumerated: every adapter over the empty / one-element / three-element / infinite source with counts 0..3, all depth-2 combinations with the edge pad, all chains of two leaves; random adapter trees of depth <= 3 (12 adapters), pulled 4..16 times (past the end); Peek with random peek/pull interleavings; Cache with cached() after every pull. Non-trivial: >= 3 ops and an adapter (not a bare leaf) involved.",
+             nontrivial=["take", "take0", "skip", "skip0", "chain", "cycle", "repeat", "repeat0", "padc", "padc0", "pade", "pade0", "cache", "roundtrip"]),
+    "C11": P(["C11"], ["C11."],
+             "all nine sinks over exact rationals: empty, one and up to 8 samples (random rationals, constants, integer shapes), fed through Sink::sink or Filter::filter, finalised after every sample. Non-trivial: >= 3 ops and at least two samples.",
+             nontrivial=["sink.multi", "sink.fin-many"]),
     "C12": P(["C12"], ["C12.", "C20.cached"],
              "every resettable filter kind (22 kinds + cache wrappers over 9 inner kinds): random configuration, history long enough to fill windows, reset, configuration compared, then the reset instance and a freshly constructed one fed identical inputs (outputs must coincide), further resets at random points. Non-trivial: >= 3 ops and a reset executed.",
              nontrivial=["reset"]),
@@ -87,6 +96,12 @@ CLAIMS = {
             "note": TIE},
     "C09": {"text": "Theorems: peaks closed form on x[n-2],x[n-1],x[n] for total orders (peaks_correct), slope decision (slopeOf_lin), value-driven = slope-driven Peaks for any comparison (peaks_value_eq_slope). Correspondence: all 3-letter sequences, NaN, both Peaks impls against each other.",
             "note": TIE},
+    "C01": {"text": "Theorems about a deep embedding of pipe shapes over ARBITRARY stateful stages (any number of leaves, any nesting, unit wrappers): the output stream equals feeding each stage the complete output stream of its predecessor (run_eq_seq), shapes with the same leaf sequence are observationally equal (run_congr), one output per input (length_run); source pipes answer the source's items pushed through the stages and `none` exactly where the source does, without touching the stages (pulls_eq, runOpt_none_iff); finalising a sink pipe = finalising the sink after the filtered samples (finalize_eq). Correspondence: real Pipe/UnitPipe/BitOr code over probe stages, all nestings k<=6, logs compared.",
+            "note": TIE + "Monomorphised (statically typed) nestings are represented by the dynamically dispatched enum over the same generic impls."},
+    "C10": {"text": "Theorems: every adapter machine implements its iterator analogue for every inner machine (take, skip, chain, cycle, repeat, constant, increment, both pads incl. the repaired edge pad with count 0 / one element / empty, cache) and therefore every adapter tree of any depth does, fused end included (tree_correct); peek laws (peek_then_pull, peek_idem, peek_pull_plain). Correspondence: enumerated and random trees of depth <= 3 over the real adapters.",
+            "note": TIE + "FromIter is modelled over a list iterator (fused)."},
+    "C11": {"text": "Theorem over any field of characteristic 0: the Welford state keeps count = n, mean = batch mean, M2 = sum of squared deviations (winv_step); batch statistics are executable specifications checked against all nine sinks on every run (finalize and running-filter paths).",
+            "note": TIE + FLOATS},
     "C12": {"text": "Theorem over the registry of all 24 filter models + wrappers (any nesting): reset = init(config) (reset_eq_init), configuration unchanged (config_reset), hence identical response to every later input (run_reset_eq_fresh). Correspondence: every resettable filter, reset after random histories, compared with the model and with a freshly constructed real instance fed the same inputs.",
             "note": TIE + "The theorem is structural (the model's reset is transcribed from each impl Reset); whether the code's reset forgets something is decided by the correspondence and by the real reset-vs-fresh differential."},
     "C13": {"text": "Theorems over ordered fields, gains in [0,1], all lengths: EMA and exponential-median outputs stay in any interval containing the samples (ema_hull, emed_hull), constants reproduced (ema_const). Recurrences are executable specifications checked against the implementation (exact rationals).",
